@@ -70,6 +70,8 @@ def run(ctx):
         a, b = interp[t["id"]], jit[t["id"]]
         ctx.evaluations += 1
         ctx.count("op:" + t["op"])
+        for _k in catalogue.features(t):
+            ctx.count("feature:" + _k)
         desc = {"op": t["op"], "args": t["args"], "world": t["world"], "dtype": t.get("dtype")}
         if len(ctx.samples) < 3:
             ctx.samples.append({"op": t["op"], "args": t["args"], "shape": t["world"]["shape"]})
